@@ -1,6 +1,13 @@
 /* harnesses for msg_ring_buffer.c -- included at the end of the injected TU */
 #include "vg.h"
+#include <stdlib.h>
 uint32_t vg_o;
+
+void h_mrb_clear(void) {
+    struct jls_mrb_s * self;
+    jls_mrb_clear(self);
+    VG_REACH(clear_returns);
+}
 
 void h_mrb_alloc(void) {
     struct jls_mrb_s * self;
@@ -8,4 +15,76 @@ void h_mrb_alloc(void) {
     uint8_t * p = jls_mrb_alloc(self, size);
     VG_REACH(alloc_returns);
     if (p) { VG_REACH(alloc_nonnull); } else { VG_REACH(alloc_null); }
+}
+
+void h_mrb_peek(void) {
+    struct jls_mrb_s * self;
+    uint32_t * size;
+    uint8_t * p = jls_mrb_peek(self, size);
+    VG_REACH(peek_returns);
+    if (p) { VG_REACH(peek_nonnull); } else { VG_REACH(peek_null); }
+}
+
+void h_mrb_pop(void) {
+    struct jls_mrb_s * self;
+    uint32_t * size;
+    uint8_t * p = jls_mrb_pop(self, size);
+    VG_REACH(pop_returns);
+    if (p) { VG_REACH(pop_nonnull); } else { VG_REACH(pop_null); }
+}
+
+/* ------------------------------------------------------------------------------------------------
+ * BOUNDED stand-in for the record-chain invariant (not counted as proved):
+ * every sequence of VG_SEQ_OPS alloc/pop operations with arbitrary sizes on a queue of any capacity 16..VG_SEQ_CAP,
+ * executed on the real functions (no contracts), checked against a model FIFO kept by the harness:
+ *   - vg_mrb_first_ok (the precondition of the peek/pop contracts) holds after every operation,
+ *   - pop returns the messages in allocation order with the size and the bytes they were given.
+ * ---------------------------------------------------------------------------------------------- */
+#ifndef VG_SEQ_OPS
+#define VG_SEQ_OPS 6
+#endif
+#ifndef VG_SEQ_CAP
+#define VG_SEQ_CAP 48
+#endif
+void h_mrb_seq(void) {
+    struct jls_mrb_s q;
+    uint32_t cap;
+    __CPROVER_assume(cap >= 16 && cap <= VG_SEQ_CAP);
+    uint8_t * mem = malloc(cap);
+    __CPROVER_assume(mem != NULL);
+    jls_mrb_init(&q, mem, cap);
+    uint32_t m_off[VG_SEQ_OPS], m_sz[VG_SEQ_OPS]; uint8_t m_tag[VG_SEQ_OPS];
+    unsigned m_head = 0, m_tail = 0;
+    for (unsigned k = 0; k < VG_SEQ_OPS; ++k) {
+        _Bool do_alloc; uint32_t sz; uint8_t tag;
+        if (do_alloc) {
+            __CPROVER_assume(sz <= cap);
+            uint8_t * p = jls_mrb_alloc(&q, sz);
+            if (p) {
+                __CPROVER_assert(p >= mem + 4 && (p - mem) + sz <= cap, "C08 bounded: region inside the queue memory");
+                for (unsigned j = m_tail; j < m_head; ++j) {
+                    __CPROVER_assert((uint32_t) (p - mem) + sz <= m_off[j] - 4 || (uint32_t) (p - mem) - 4 >= m_off[j] + m_sz[j],
+                                     "C08 bounded: new region does not overlap an un-popped message");
+                }
+                if (sz) { p[0] = tag; p[sz - 1] = tag; }
+                m_off[m_head] = (uint32_t) (p - mem); m_sz[m_head] = sz; m_tag[m_head] = tag; ++m_head;
+            } else if (m_head == m_tail) {
+                __CPROVER_assert(sz + VG_MRB_K > cap, "C08 bounded: an emptied queue accepts anything up to the usable capacity");
+            }
+        } else {
+            uint32_t got;
+            uint8_t * p = jls_mrb_pop(&q, &got);
+            if (m_head == m_tail) {
+                __CPROVER_assert(p == NULL, "C08 bounded: pop on an empty queue returns NULL");
+            } else {
+                __CPROVER_assert(p == mem + m_off[m_tail] && got == m_sz[m_tail], "C08 bounded: messages come out in allocation order with their size");
+                __CPROVER_assert(got == 0 || (p[0] == m_tag[m_tail] && p[got - 1] == m_tag[m_tail]), "C08 bounded: ... and their bytes");
+                ++m_tail;
+            }
+        }
+        __CPROVER_assert(vg_mrb_first_ok(&q), "C08 bounded: oldest record well formed after every operation (precondition of the peek/pop contracts)");
+        __CPROVER_assert((m_head == m_tail) == (q.head == q.tail) && q.count == m_head - m_tail, "C08 bounded: empty <=> head==tail, count exact");
+    }
+    VG_REACH(seq_done);
+    if (m_head - m_tail >= 3 && q.head < q.tail) { VG_REACH(seq_three_live_wrapped); }
 }
